@@ -44,6 +44,7 @@ fn profile() -> ScenarioProfile {
         rf: true,
         ops: vec![Op::Move],
         files: (5, 14),
+        hardlinks: 3,
     }
 }
 
